@@ -85,6 +85,7 @@ fn main() {
         "window" => run_engine(engines::window::WindowEngine::new(), mode, rest),
         "selection" => run_engine(engines::selection::SelectionEngine::new(), mode, rest),
         "stallguard" => run_engine(engines::stallguard::StallGuardEngine::new(), mode, rest),
+        "weakfilter" => run_engine(engines::weakfilter::WeakFilterEngine::new(), mode, rest),
         _ => {
             eprintln!("unknown engine {engine}");
             std::process::exit(2)
